@@ -689,6 +689,7 @@ func c06Run(c c06Case, o *hx.Obs) {
 		keys = append(keys, k)
 	}
 	sort.Strings(keys)
+	nfail := 0
 	for _, k := range keys {
 		want := c.Expect[k]
 		got, ok := f[k]
@@ -697,14 +698,18 @@ func c06Run(c c06Case, o *hx.Obs) {
 		case !ok && want == "":
 		case !ok:
 			o.Failf("fidelity|"+w+"|lost", "%s: written %q, nothing read back\n%s", k, want, c.Text)
-			return
+			nfail++
 		case got != want:
 			clause := "altered"
 			if strings.HasSuffix(k, "/_pos") {
 				clause = "order"
 			}
 			o.Failf("fidelity|"+w+"|"+clause, "%s: written %q, read back %q\n%s", k, want, got, c.Text)
-			return
+			nfail++
+		}
+		// every expectation is checked (a known finding on one statement must not hide another statement)
+		if nfail >= 12 {
+			break
 		}
 	}
 	// extensions: exactly the ones written
